@@ -12,6 +12,7 @@ import (
 	"gcv/internal/ref"
 
 	"golang.org/x/tools/go/packages"
+	"golang.org/x/tools/go/ssa"
 )
 
 func init() { Registry["C08"] = checkC08 }
@@ -291,17 +292,153 @@ func c08Consts(r *core.Run, p *core.Program) {
 func checkC08(r *core.Run) {
 	r.Rule("R-C08-tables", "every entry of the embedded precomputed tables (pre_g, pre_g_128, prec, fin), in every limb layout that some GOARCH builds, equals the multiple of G it stands for, recomputed with an independent affine group law in math/big from the literals in the syntax tree")
 	r.Rule("R-C08-consts", "curve, endomorphism (lambda, beta, GLV lattice) and limb constants satisfy their defining equations")
+	r.Rule("R-C08-limbs", "interval abstract interpretation of every field operation's limb arithmetic, per limb layout: under the magnitude contract of its inputs no uint64/uint32 operation wraps, no 128-bit accumulator overflows (each discarded carry-out is an obligation), and every output limb stays within the bound of the output magnitude (Normalize/SetB32: canonical limb ranges)")
 	r.Exhaust["R-C08-tables"] = true
 	r.Explain = "Static: literals of the precomputed tables and curve constants are read from the type-checked syntax tree of /repo (no gocoin code is executed) and compared with values recomputed from the group law; magnitude/overflow abstract interpretation of the limb arithmetic and of the group formulas' call sites (see rules). Decides the 'tables contain exactly the multiples of G' sentence exhaustively and necessary conditions (no limb overflow, magnitude preconditions) of the field/group sentences."
 	r.NotCov = "That the Jacobian/affine formulas implement the group law for all operands (needs symbolic polynomial reasoning), wNAF/GLV digit correctness, big.Int code paths."
 	for _, v := range []struct{ arch, name string }{{"", "native"}, {"386", "386"}} {
-		p := load(r, core.LoadOpts{Patterns: []string{"./lib/secp256k1"}, GOARCH: v.arch, NoSSA: true})
+		p := load(r, core.LoadOpts{Patterns: []string{"./lib/secp256k1"}, GOARCH: v.arch})
 		if p == nil {
 			return
 		}
 		c08Tables(r, p, v.name)
+		c08Limbs(r, p, v.name)
 		if v.arch == "" {
 			c08Consts(r, p)
 		}
+	}
+}
+
+// ---- R-C08-limbs: interval interpretation of the limb arithmetic ---------------------------
+
+type limbLayout struct {
+	limbs int
+	w, t  uint // bits of an ordinary limb / of the top limb
+}
+
+// magBound: largest limb value of a magnitude-m element. The two layouts use different
+// conventions (visible in their Negate: 5x52 subtracts from 2*(m+1)*p, 10x26 from (m+1)*p).
+func (l limbLayout) magBound(m int64, limb int) *big.Int {
+	bits := l.w
+	if limb == l.limbs-1 {
+		bits = l.t
+	}
+	b := new(big.Int).Lsh(big.NewInt(1), bits)
+	b.Sub(b, big.NewInt(1))
+	if l.limbs == 10 {
+		// Mul/Sqr leave limb 2 slightly above 26 bits (as in libsecp256k1's 10x26 code), so the unit is
+		// a little larger than 2^26-1; it must stay below (1+1/m)*p_i for Negate(m), m <= 8
+		if limb == l.limbs-1 {
+			return b.Mul(b, big.NewInt(m))
+		}
+		return new(big.Int).Mul(big.NewInt(0x4080000), big.NewInt(m))
+	}
+	return b.Mul(b, big.NewInt(2*m))
+}
+
+func (l limbLayout) normBound(limb int) *big.Int {
+	bits := l.w
+	if limb == l.limbs-1 {
+		bits = l.t
+	}
+	b := new(big.Int).Lsh(big.NewInt(1), bits)
+	return b.Sub(b, big.NewInt(1))
+}
+
+func c08Limbs(r *core.Run, p *core.Program, variant string) {
+	const rule = "R-C08-limbs"
+	sp := p.SSAPkg("lib/secp256k1")
+	if sp == nil {
+		r.Undecided("%s: no SSA for lib/secp256k1", variant)
+		return
+	}
+	// layout from the Field type
+	ft := sp.Pkg.Scope().Lookup("Field")
+	if ft == nil {
+		r.Undecided("Field type not found")
+		return
+	}
+	st := ft.Type().Underlying().(*types.Struct)
+	arr, ok := st.Field(0).Type().Underlying().(*types.Array)
+	if !ok {
+		r.Undecided("Field.n is not an array")
+		return
+	}
+	var lay limbLayout
+	switch arr.Len() {
+	case 5:
+		lay = limbLayout{5, 52, 48}
+	case 10:
+		lay = limbLayout{10, 26, 22}
+	default:
+		r.Undecided("unexpected limb count %d", arr.Len())
+		return
+	}
+	meth := func(name string) *ssa.Function {
+		return p.Func("lib/secp256k1.(*Field)." + name)
+	}
+	type contract struct {
+		fn      string
+		inMag   map[string]int64 // parameter -> magnitude of the Field it points to (default for all others: defIn)
+		defIn   int64
+		consts  map[string]*big.Int
+		outMag  int64 // 0 = normalised range
+		outPar  string
+		label   string
+		noStore bool
+	}
+	var cs []contract
+	cs = append(cs, contract{fn: "Mul", defIn: 8, outMag: 1, outPar: "r", label: "Mul(mag 8, mag 8) -> mag 1"})
+	cs = append(cs, contract{fn: "Sqr", defIn: 8, outMag: 1, outPar: "r", label: "Sqr(mag 8) -> mag 1"})
+	cs = append(cs, contract{fn: "Normalize", defIn: 16, outMag: 0, outPar: "r", label: "Normalize(mag <= 16) -> limbs in canonical range"})
+	cs = append(cs, contract{fn: "SetB32", defIn: 1, outMag: 0, outPar: "r", label: "SetB32 -> limbs in canonical range"})
+	for m := int64(1); m <= 8; m++ {
+		cs = append(cs, contract{fn: "Negate", defIn: m, consts: map[string]*big.Int{"m": big.NewInt(m)}, outMag: m + 1, outPar: "r", label: fmt.Sprintf("Negate(mag %d, m=%d) -> mag %d", m, m, m+1)})
+	}
+	cs = append(cs, contract{fn: "SetAdd", inMag: map[string]int64{"r": 3, "a": 5}, outMag: 8, outPar: "r", label: "SetAdd(mag 3 += mag 5) -> mag 8"})
+	cs = append(cs, contract{fn: "MulInt", defIn: 1, consts: map[string]*big.Int{"a": big.NewInt(8)}, outMag: 8, outPar: "r", label: "MulInt(mag 1, 8) -> mag 8"})
+	for _, c := range cs {
+		fn := meth(c.fn)
+		key := variant + "/" + c.label
+		if fn == nil {
+			r.Fail(rule, key, "-", "field operation "+c.fn+" not found")
+			continue
+		}
+		res := an.InterpretLimbs(p, fn, func(par string, limb int) (an.IV, bool) {
+			m := c.defIn
+			if v, ok := c.inMag[par]; ok {
+				m = v
+			}
+			return an.IV{Lo: new(big.Int), Hi: lay.magBound(m, limb)}, true
+		}, c.consts)
+		r.Count("limb_instructions", res.Steps)
+		if len(res.Issues) > 0 {
+			is := res.Issues[0]
+			r.Fail(rule, key, p.Pos(is.Pos), fmt.Sprintf("%s (%d issue(s) in %s)", is.What, len(res.Issues), c.fn))
+			continue
+		}
+		bad := ""
+		n := 0
+		for _, k := range res.SortedOut() {
+			var par string
+			var limb int
+			fmt.Sscanf(strings.Replace(k, ".n[", " ", 1), "%s %d]", &par, &limb)
+			if par != c.outPar {
+				continue
+			}
+			n++
+			bound := lay.normBound(limb)
+			if c.outMag > 0 {
+				bound = lay.magBound(c.outMag, limb)
+			}
+			if res.Out[k].Hi.Cmp(bound) > 0 {
+				bad = fmt.Sprintf("%s may reach 0x%s, above the bound 0x%s of its contract", k, res.Out[k].Hi.Text(16), bound.Text(16))
+				break
+			}
+		}
+		if bad == "" && n != lay.limbs {
+			bad = fmt.Sprintf("only %d of %d output limbs are written", n, lay.limbs)
+		}
+		r.Check(bad == "", rule, key, p.Pos(fn.Pos()), "no limb/accumulator overflow; every output limb within its bound", bad)
 	}
 }
